@@ -6,6 +6,7 @@ import numpy as np
 
 from oracles.bvn import phi, phi2, uniform_cdf
 
+CALL_VARIANTS = True   # every whitelisted persim call is repeated with its arrays in another memory layout (mc/ctx.py)
 PROPERTY = "C13"
 RULE = (
     "configurations = means x variance pairs (1e-8..1e2, thorough 1e-12..1e8) x correlations (both sides of every branch threshold "
